@@ -14,6 +14,7 @@ package main
 
 import (
 	"math/rand"
+	"time"
 )
 
 func genC11(r *rand.Rand, tier string, idx int) []string {
@@ -67,10 +68,11 @@ func genC11(r *rand.Rand, tier string, idx int) []string {
 
 func init() {
 	register(&Suite{
-		Name: "c11",
-		Rule: "histories of 5..28 (thorough ..64) ops over 2..8 keys: update / same-value rewrite / delete / delete+re-add of identical content, hash reads on a dirty trie, commit at collapse levels -1..6, one or more GC passes in any position (one case in five also while changes are uncommitted), reload; every fourth case uses a shared value pool (equal values under different keys); reopen check after every batch and GC pass, crash enumeration over all prefixes of the storage-operation stream; non-trivial = at least 2 mutations and one commit",
-		Gen:  genC11,
-		Run:  runWmpt,
+		Name:        "c11",
+		Rule:        "histories of 5..28 (thorough ..64) ops over 2..8 keys: update / same-value rewrite / delete / delete+re-add of identical content, hash reads on a dirty trie, commit at collapse levels -1..6, one or more GC passes in any position (one case in five also while changes are uncommitted), reload; every fourth case uses a shared value pool (equal values under different keys); reopen check after every batch and GC pass, crash enumeration over all prefixes of the storage-operation stream; non-trivial = at least 2 mutations and one commit",
+		Gen:         genC11,
+		Run:         runWmpt,
+		CaseTimeout: 3 * time.Minute, // a stalled machine must not look like a hang; a real hang still fails the case
 		DefaultN: func(tier string) int {
 			if tier == "thorough" {
 				return 80000
